@@ -186,6 +186,21 @@ func (p *c15Prop) Gen(r *Rng, i int, tier string) interface{} {
 			c.File = append(c.File, enh(u))
 		}
 	}
+	if r.Chance(12) {
+		// a configuration without any user: the constructor installs "guest" / "guest" with the default rules
+		c.Config.Users, c.Config.EnhUsers, c.File, c.PlainList = map[string]string{}, nil, nil, nil
+		for k := 0; k < 8; k++ {
+			q := c15Query{User: "guest", Password: "guest", Topic: c15Topics[r.Intn(len(c15Topics))], Write: r.Bool()}
+			if r.Chance(25) {
+				q.Password = "wrong"
+			}
+			if r.Chance(15) {
+				q.User = "u1"
+			}
+			c.Queries = append(c.Queries, q)
+		}
+		return c
+	}
 	for k := 0; k < 10; k++ {
 		u := append(names, "nobody")[r.Intn(len(names)+1)]
 		pw := "pw-" + u
